@@ -74,9 +74,32 @@ impl ResolvedCalendarFields {
         // a leap month that is not the number inside the month code, so the code
         // has to be looked up in the year that was just resolved.
         let month_code = match (partial_date.month, partial_date.month_code) {
-            (Some(month), None) => partial_date
-                .calendar
-                .month_code_from_ordinal(&era_year, month)?,
+            (Some(month), None) => {
+                let lookup = |month: u8| {
+                    partial_date
+                        .calendar
+                        .month_code_from_ordinal(&era_year, month)
+                };
+                match lookup(month) {
+                    Ok(month_code) => month_code,
+                    // Under constrain a month beyond the last one of the year is clamped
+                    // to it, and month 0 to the first.
+                    Err(err)
+                        if overflow == ArithmeticOverflow::Constrain
+                            && (month == 0 || month > 12) =>
+                    {
+                        let mut candidate = month.clamp(1, 13);
+                        loop {
+                            match lookup(candidate) {
+                                Ok(month_code) => break month_code,
+                                Err(_) if candidate > 1 => candidate -= 1,
+                                Err(_) => return Err(err),
+                            }
+                        }
+                    }
+                    Err(err) => return Err(err),
+                }
+            }
             (Some(month), Some(month_code)) => {
                 month_code.validate(&partial_date.calendar)?;
                 let resolved = partial_date
